@@ -15,6 +15,16 @@ flock 9
 sed "s#@REPO@#$REPO#g" "$VERIF/sim/go.mod.tmpl" > "$VERIF/sim/go.mod" || exit 2
 cp "$REPO/go.sum" "$VERIF/sim/go.sum" || exit 2
 cat "$VERIF/sim/go.sum.extra" >> "$VERIF/sim/go.sum" 2>/dev/null
+# E2: rewrite the lock-using component files of the current tree (sync.Mutex -> simsync, go -> simsync.GoStmt, lockset probes)
+REWRITTEN="internal/dynamiccache/cache.go internal/dynamiccache/cache_source.go internal/packages/internal/packageimport/request_manager.go"
+cd "$VERIF/sim" || exit 2
+$GO build -o "$VERIF/.build/rewrite" ./cmd/rewrite > "$VERIF/.build/build-rewrite.log" 2>&1 || { cat "$VERIF/.build/build-rewrite.log"; echo "MACHINERY: build of the rewriter failed"; exit 2; }
+rm -rf "$VERIF/.build/rewritten"
+for f in $REWRITTEN; do
+  mkdir -p "$VERIF/.build/rewritten/$(dirname $f)"
+  "$VERIF/.build/rewrite" "$REPO/$f" "$VERIF/.build/rewritten/$f" || { echo "MACHINERY: rewriting $f failed"; exit 2; }
+  grep -q simsync "$VERIF/.build/rewritten/$f" || { echo "MACHINERY: $f has no lock or go statement left to rewrite"; exit 2; }
+done
 python3 - "$VERIF" "$REPO" <<'PY' || exit 2
 import json,os,glob,sys
 verif,repo=sys.argv[1],sys.argv[2]
@@ -22,10 +32,13 @@ ov={"Replace":{}}
 for f in glob.glob(verif+'/overlay/**/*.go',recursive=True):
     rel=os.path.relpath(f,verif+'/overlay')
     ov["Replace"][repo+'/internal/'+rel]=f
+for f in glob.glob(verif+'/.build/rewritten/**/*.go',recursive=True):
+    rel=os.path.relpath(f,verif+'/.build/rewritten')
+    ov["Replace"][repo+'/'+rel]=f
 json.dump(ov,open(verif+'/.build/overlay.json','w'),indent=1)
 PY
 cd "$VERIF/sim" || exit 2
 if [ "$what" = e1 ] || [ "$what" = all ]; then
-  $GO test -c -tags verif -overlay "$VERIF/.build/overlay.json" -o "$VERIF/.build/sim.test" ./run > "$VERIF/.build/build-e1.log" 2>&1 || { cat "$VERIF/.build/build-e1.log"; echo "MACHINERY: build of E1 failed"; exit 2; }
+  $GO test -c -vet=off -tags verif -overlay "$VERIF/.build/overlay.json" -o "$VERIF/.build/sim.test" ./run > "$VERIF/.build/build-e1.log" 2>&1 || { cat "$VERIF/.build/build-e1.log"; echo "MACHINERY: build of E1 failed"; exit 2; }
 fi
 exit 0
